@@ -314,6 +314,13 @@ def run_g(o: Outcome, cfgs, n_random, tier):
             if tree not in want:
                 o.note_drift({"text": text, "machine_tree": want[0], "real_tree": tree})
     o.traces += len(cases)
+    # (the model has one action, AddLine(l); TLC's -coverage runs out of memory on the functional
+    # Parser.tla, so coverage is reported per line type)
+    per_line = {}
+    for c in cases:
+        for t in {ln["t"] + (str(ln["l"]) if ln["t"] == "H" else str(len(ln["p"])) if ln["t"] == "L" else "") for ln in c["doc"]}:
+            per_line[t] = per_line.get(t, 0) + 1
+    o.extra["action_coverage"] = {"AddLine": len(cases), "documents_containing_line_type": per_line}
     mid = cases[len(cases) // 2]
     o.sample({"doc": mid["doc"], "text": spell_plain(mid["doc"]), "relations": mid["rel"]})
     return cases
